@@ -65,13 +65,20 @@ def split_runs(trace, nshards):
     return paths, n, len(runs)
 
 
-def conc_phase(ctx, tag, exe, scenarios, props, clr=True, maxruns=200000, nt=4):
+def conc_phase(ctx, tag, exe, scenarios, props, clr=True, maxruns=200000, nt=4, max_events=None):
+    if ctx.violations:
+        ctx.log(f"{tag}: skipped, an earlier phase already established a violation")
+        return
     t = time.time()
     trace = ctx.work / f"{tag}.ndjson"
-    rc, out = sh([str(exe), str(trace), "1" if clr else "0", str(maxruns)] + scenarios, timeout=3000, env={"VERIF_SEED": str(ctx.seed)})
+    rc, out = sh([str(exe), str(trace), "1" if clr else "0", str(maxruns)] + scenarios, timeout=3000,
+                 env={"VERIF_SEED": str(ctx.seed), "VERIF_MAX_EVENTS": str(max_events or (3000000 if ctx.quick else 40000000))})
     if rc != 0:
         raise HarnessError(f"drv_conc failed rc={rc}: {out[-2000:]}")
     summ = json.loads(out.strip().splitlines()[-1])
+    if summ.get("truncated"):
+        # far more schedules than the unchanged tree has: what was explored is still judged, and the evidence says so
+        ctx.notes.append(f"{tag}: schedule enumeration stopped at the event budget ({summ.get('events')} events)")
     parts, nlines, nruns = split_runs(trace, NCPU // 2)
     consts = f"  NT = {nt}\n  Roles = {{\"owner\"}}\n  Ops = {{\"none\"}}\n  HasClr = {'TRUE' if clr else 'FALSE'}"
     jobs = [(lv, k, p) for lv in (1, 2) for k, p in enumerate(parts)]
@@ -147,6 +154,13 @@ FOUR = [scen([("owner", "reset1"), ("weak", "lock"), ("weak", "lock"), ("weak", 
 def run(ctx):
     props = {ctx.pid}
     exe = build_conc(ctx)
+    # One thread is an interleaving too: the clear callback runs *inside* the reset that dropped the last owner and
+    # may call back into the library (it resets, or locks, a weak pointer to the very allocation being torn down).
+    # "Preserves C05" and "no thread waits forever" are judged on the sequential closure of the pointer model with
+    # those callbacks (kinds 2 and 3 of Ptr.tla); a hang is an outcome of the recorded transition.
+    from . import p_ptr
+    pexe = build(ctx, "drv_ptr", "drv_ptr.c", p_ptr.LIB, wrap=p_ptr.WRAP)
+    p_ptr.closure(ctx, pexe, "reentrant-s2w1", 2, 1, 0, False, False, {"C05": "C06"})
     # L0: every interleaving of every pair of operations x initial configurations, safety + race freedom + termination
     l0_conc(ctx, "t2", 2, ROLES, OPS)
     per = [(r, o) for r in ROLES for o in OPS]
